@@ -1,7 +1,1599 @@
-//! C17 — not built yet.
-use vcore::Ctx;
+//! C17 — exported SDL is a valid type-system document that describes exactly the schema, under every combination of
+//! export options.
+//!
+//! Sources: (a) generated dynamic schemas (`gen_sch`) decorated with nasty descriptions / deprecation reasons /
+//! string defaults, built with a builder that forwards every description and deprecation; (b) two derive-built static
+//! schemas (`nst` = the clean family member, `prb` = the constructs of the known findings) whose expectation is a
+//! hand-written table in this file. Oracle: the SDL parses with `async_graphql_parser::parse_schema` AND with the
+//! reference parser; the read-back (`vgql::sch::from_sdl` + directive definitions / applied directives / specifiedBy
+//! read here) equals the source.
+use async_graphql::dynamic as dy;
+use async_graphql::SDLExportOptions;
+use serde_json::json;
+use std::collections::{BTreeMap, BTreeSet};
+use vcore::{Case, Ctx, Src};
+use vgql::ast::*;
+use vgql::gensch::*;
+use vgql::print::print_value_plain;
+use vgql::refparse::{parse_type_system, Opts, SdlDef, SdlDoc};
+use vgql::sch::*;
+use vschemas::dynbuild::{type_ref, val_to_value};
 
-pub fn run(_ctx: &mut Ctx) {
-    eprintln!("C17: check not built yet");
-    std::process::exit(2);
+// ---------------------------------------------------------------------------------------------------------------
+// export options
+
+#[derive(Clone, Copy, Debug, PartialEq)]
+struct O {
+    sorted_fields: bool,
+    sorted_arguments: bool,
+    sorted_enum_items: bool,
+    federation: bool,
+    single_line: bool,
+    specified_by: bool,
+    compose_directive: bool,
+    space_indent: bool,
+    width: u8,
+}
+const WIDTHS: [u8; 5] = [2, 0, 1, 4, 9];
+
+impl O {
+    fn from_bits(bits: u32, width: u8) -> O {
+        O {
+            sorted_fields: bits & 1 != 0,
+            sorted_arguments: bits & 2 != 0,
+            sorted_enum_items: bits & 4 != 0,
+            federation: bits & 8 != 0,
+            single_line: bits & 16 != 0,
+            specified_by: bits & 32 != 0,
+            compose_directive: bits & 64 != 0,
+            space_indent: bits & 128 != 0,
+            width,
+        }
+    }
+    fn default() -> O {
+        O::from_bits(0, 2)
+    }
+    fn build(&self) -> SDLExportOptions {
+        let mut o = SDLExportOptions::new();
+        if self.sorted_fields {
+            o = o.sorted_fields();
+        }
+        if self.sorted_arguments {
+            o = o.sorted_arguments();
+        }
+        if self.sorted_enum_items {
+            o = o.sorted_enum_items();
+        }
+        if self.federation {
+            o = o.federation();
+        }
+        if self.single_line {
+            o = o.prefer_single_line_descriptions();
+        }
+        if self.specified_by {
+            o = o.include_specified_by();
+        }
+        if self.compose_directive {
+            o = o.compose_directive();
+        }
+        if self.space_indent {
+            o = o.use_space_ident().indent_width(self.width);
+        }
+        o
+    }
+    fn tab(&self) -> String {
+        if self.space_indent {
+            " ".repeat(self.width as usize)
+        } else {
+            "\t".into()
+        }
+    }
+    fn show(&self) -> String {
+        let mut v = vec![];
+        for (on, n) in [
+            (self.sorted_fields, "sorted_fields"),
+            (self.sorted_arguments, "sorted_arguments"),
+            (self.sorted_enum_items, "sorted_enum_items"),
+            (self.federation, "federation"),
+            (self.single_line, "prefer_single_line_descriptions"),
+            (self.specified_by, "include_specified_by"),
+            (self.compose_directive, "compose_directive"),
+        ] {
+            if on {
+                v.push(n.to_string());
+            }
+        }
+        if self.space_indent {
+            v.push(format!("use_space_ident+indent_width({})", self.width));
+        }
+        if v.is_empty() {
+            "default".into()
+        } else {
+            v.join("+")
+        }
+    }
+}
+
+/// every combination of the eight toggles; with space indentation every width of `WIDTHS`
+fn all_options() -> Vec<O> {
+    let mut v = vec![];
+    for bits in 0..256u32 {
+        if bits & 128 != 0 {
+            for w in WIDTHS {
+                v.push(O::from_bits(bits, w));
+            }
+        } else {
+            v.push(O::from_bits(bits, 2));
+        }
+    }
+    v
+}
+fn gen_options(s: &mut dyn Src) -> O {
+    O::from_bits(s.choose(256) as u32, WIDTHS[s.choose(WIDTHS.len())])
+}
+
+// ---------------------------------------------------------------------------------------------------------------
+// what a schema is expected to say / what an SDL text says
+
+type Applied = (String, Vec<(String, Val)>);
+
+#[derive(Clone, Debug)]
+struct DirSig {
+    name: String,
+    args: Vec<ArgDef>,
+    repeatable: bool,
+    locations: Vec<String>,
+}
+
+#[derive(Clone, Debug)]
+struct Expect {
+    sch: Sch,
+    specified_by: BTreeMap<String, String>,
+    custom_directives: Vec<DirSig>,
+    /// element path (`T`, `T.f`, `T.f(a)`, `E.V`) -> applied custom directives
+    applied: BTreeMap<String, Vec<Applied>>,
+}
+
+struct Back {
+    sch: Sch,
+    directives: Vec<DirSig>,
+    applied: BTreeMap<String, Vec<Applied>>,
+    specified_by: BTreeMap<String, String>,
+    schema_definition: bool,
+    schema_extensions: usize,
+}
+
+fn arg_of(i: &vgql::refparse::InputDefn) -> ArgDef {
+    let mut default = i.default.clone();
+    if let Some(v) = &mut default {
+        let mut pv = PVal::new(v.clone());
+        strip_val(&mut pv);
+        *v = pv.v;
+    }
+    ArgDef { name: i.name.clone(), ty: i.ty.clone(), default, desc: i.desc.clone(), deprecated: None }
+}
+
+fn note_applied(out: &mut BTreeMap<String, Vec<Applied>>, spec: &mut BTreeMap<String, String>, path: String, ds: &[Directive]) {
+    for d in ds {
+        match d.name.s.as_str() {
+            "deprecated" | "oneOf" => {}
+            "specifiedBy" => {
+                if let Some((_, v)) = d.args.iter().find(|(n, _)| n.s == "url") {
+                    if let Val::Str(u) = &v.v {
+                        spec.insert(path.clone(), u.clone());
+                    }
+                }
+            }
+            _ => {
+                let args = d
+                    .args
+                    .iter()
+                    .map(|(n, v)| {
+                        let mut pv = v.clone();
+                        strip_val(&mut pv);
+                        (n.s.clone(), pv.v)
+                    })
+                    .collect();
+                out.entry(path.clone()).or_default().push((d.name.s.clone(), args));
+            }
+        }
+    }
+}
+
+fn read_back(doc: &SdlDoc) -> Result<Back, String> {
+    let sch = from_sdl(doc)?;
+    let mut b = Back { sch, directives: vec![], applied: BTreeMap::new(), specified_by: BTreeMap::new(), schema_definition: false, schema_extensions: 0 };
+    for d in &doc.defs {
+        match d {
+            SdlDef::Schema(s) => {
+                if s.extend {
+                    b.schema_extensions += 1;
+                } else {
+                    b.schema_definition = true;
+                }
+            }
+            SdlDef::Directive(dd) => b.directives.push(DirSig { name: dd.name.clone(), args: dd.args.iter().map(arg_of).collect(), repeatable: dd.repeatable, locations: dd.locations.clone() }),
+            SdlDef::Type(t) => {
+                note_applied(&mut b.applied, &mut b.specified_by, t.name.clone(), &t.directives);
+                for f in &t.fields {
+                    note_applied(&mut b.applied, &mut b.specified_by, format!("{}.{}", t.name, f.name), &f.directives);
+                    for a in &f.args {
+                        note_applied(&mut b.applied, &mut b.specified_by, format!("{}.{}({})", t.name, f.name, a.name), &a.directives);
+                    }
+                }
+                for v in &t.values {
+                    note_applied(&mut b.applied, &mut b.specified_by, format!("{}.{}", t.name, v.name), &v.directives);
+                }
+                for f in &t.input_fields {
+                    note_applied(&mut b.applied, &mut b.specified_by, format!("{}.{}", t.name, f.name), &f.directives);
+                }
+            }
+        }
+    }
+    Ok(b)
+}
+
+/// values compared as values: numbers by what they denote, objects as maps
+fn val_eq(a: &Val, b: &Val) -> bool {
+    fn num(v: &Val) -> Option<f64> {
+        match v {
+            Val::Int(t) | Val::Float(t) => t.parse::<f64>().ok(),
+            _ => None,
+        }
+    }
+    match (a, b) {
+        (Val::Int(x), Val::Int(y)) => x.parse::<i128>().ok() == y.parse::<i128>().ok() && x.parse::<i128>().is_ok(),
+        (Val::Int(_) | Val::Float(_), Val::Int(_) | Val::Float(_)) => num(a).is_some() && num(a) == num(b),
+        (Val::List(x), Val::List(y)) => x.len() == y.len() && x.iter().zip(y).all(|(p, q)| val_eq(&p.v, &q.v)),
+        (Val::Obj(x), Val::Obj(y)) => x.len() == y.len() && x.iter().all(|(k, p)| y.iter().filter(|(k2, _)| k2.s == k.s).count() == 1 && y.iter().any(|(k2, q)| k2.s == k.s && val_eq(&p.v, &q.v))),
+        _ => a == b,
+    }
+}
+fn opt_val_eq(a: &Option<Val>, b: &Option<Val>) -> bool {
+    match (a, b) {
+        (None, None) => true,
+        (Some(x), Some(y)) => val_eq(x, y),
+        _ => false,
+    }
+}
+fn show_val(v: &Option<Val>) -> String {
+    v.as_ref().map(print_value_plain).unwrap_or_else(|| "<none>".into())
+}
+
+fn same_names(what: &str, want: Vec<&str>, got: Vec<&str>, sorted: bool) -> Result<(), String> {
+    let w: BTreeSet<&str> = want.iter().copied().collect();
+    let g: BTreeSet<&str> = got.iter().copied().collect();
+    if w != g || want.len() != got.len() {
+        return Err(format!("{}: expected {:?}, the SDL has {:?}", what, want, got));
+    }
+    if sorted && !got.windows(2).all(|p| p[0] <= p[1]) {
+        return Err(format!("{}: not sorted although the option asks for it: {:?}", what, got));
+    }
+    Ok(())
+}
+
+fn cmp_inputs(what: &str, want: &[ArgDef], got: &[ArgDef], sorted: bool) -> Result<(), String> {
+    same_names(what, want.iter().map(|a| a.name.as_str()).collect(), got.iter().map(|a| a.name.as_str()).collect(), sorted)?;
+    for w in want {
+        let g = got.iter().find(|a| a.name == w.name).unwrap();
+        let at = format!("{} {}", what, w.name);
+        if w.ty != g.ty {
+            return Err(format!("{}: type {} expected, SDL says {}", at, w.ty.show(), g.ty.show()));
+        }
+        if !opt_val_eq(&w.default, &g.default) {
+            return Err(format!("{}: default value {} expected, SDL says {}", at, show_val(&w.default), show_val(&g.default)));
+        }
+        if w.desc != g.desc {
+            return Err(format!("{}: description {:?} expected, SDL says {:?}", at, w.desc, g.desc));
+        }
+        if w.deprecated != g.deprecated {
+            return Err(format!("{}: deprecation {:?} expected, SDL says {:?}", at, w.deprecated, g.deprecated));
+        }
+    }
+    Ok(())
+}
+
+fn cmp_type(w: &TypeDef, g: &TypeDef, o: &O) -> Result<(), String> {
+    let n = &w.name;
+    if w.kind != g.kind {
+        return Err(format!("{}: kind {:?} expected, SDL says {:?}", n, w.kind, g.kind));
+    }
+    if w.desc != g.desc {
+        return Err(format!("{}: description {:?} expected, SDL says {:?}", n, w.desc, g.desc));
+    }
+    if w.one_of != g.one_of {
+        return Err(format!("{}: oneOf {} expected, SDL says {}", n, w.one_of, g.one_of));
+    }
+    same_names(&format!("{} implements", n), w.interfaces.iter().map(|s| s.as_str()).collect(), g.interfaces.iter().map(|s| s.as_str()).collect(), false)?;
+    same_names(&format!("{} members", n), w.members.iter().map(|s| s.as_str()).collect(), g.members.iter().map(|s| s.as_str()).collect(), false)?;
+    same_names(&format!("{} fields", n), w.fields.iter().map(|f| f.name.as_str()).collect(), g.fields.iter().map(|f| f.name.as_str()).collect(), o.sorted_fields)?;
+    for wf in &w.fields {
+        let gf = g.field(&wf.name).unwrap();
+        let at = format!("{}.{}", n, wf.name);
+        if wf.ty != gf.ty {
+            return Err(format!("{}: type {} expected, SDL says {}", at, wf.ty.show(), gf.ty.show()));
+        }
+        if wf.desc != gf.desc {
+            return Err(format!("{}: description {:?} expected, SDL says {:?}", at, wf.desc, gf.desc));
+        }
+        if wf.deprecated != gf.deprecated {
+            return Err(format!("{}: deprecation {:?} expected, SDL says {:?}", at, wf.deprecated, gf.deprecated));
+        }
+        cmp_inputs(&format!("{} argument", at), &wf.args, &gf.args, o.sorted_arguments)?;
+    }
+    same_names(&format!("{} values", n), w.values.iter().map(|f| f.name.as_str()).collect(), g.values.iter().map(|f| f.name.as_str()).collect(), o.sorted_enum_items)?;
+    for wv in &w.values {
+        let gv = g.values.iter().find(|v| v.name == wv.name).unwrap();
+        if wv.desc != gv.desc {
+            return Err(format!("{}.{}: description {:?} expected, SDL says {:?}", n, wv.name, wv.desc, gv.desc));
+        }
+        if wv.deprecated != gv.deprecated {
+            return Err(format!("{}.{}: deprecation {:?} expected, SDL says {:?}", n, wv.name, wv.deprecated, gv.deprecated));
+        }
+    }
+    cmp_inputs(&format!("{} input field", n), &w.input_fields, &g.input_fields, o.sorted_fields)
+}
+
+/// the specification's built-in directives (§3.13) — what a printed definition of them has to say
+fn builtin_directive(name: &str) -> Option<DirSig> {
+    let a = |n: &str, t: &str, d: Option<Val>| ArgDef { name: n.into(), ty: Ty::parse(t), default: d, desc: None, deprecated: None };
+    let l = |xs: &[&str]| xs.iter().map(|x| x.to_string()).collect::<Vec<_>>();
+    match name {
+        "skip" | "include" => Some(DirSig { name: name.into(), args: vec![a("if", "Boolean!", None)], repeatable: false, locations: l(&["FIELD", "FRAGMENT_SPREAD", "INLINE_FRAGMENT"]) }),
+        "deprecated" => Some(DirSig {
+            name: name.into(),
+            args: vec![a("reason", "String", Some(Val::Str("No longer supported".into())))],
+            repeatable: false,
+            locations: l(&["FIELD_DEFINITION", "ARGUMENT_DEFINITION", "INPUT_FIELD_DEFINITION", "ENUM_VALUE"]),
+        }),
+        "specifiedBy" => Some(DirSig { name: name.into(), args: vec![a("url", "String!", None)], repeatable: false, locations: l(&["SCALAR"]) }),
+        "oneOf" => Some(DirSig { name: name.into(), args: vec![], repeatable: false, locations: l(&["INPUT_OBJECT"]) }),
+        _ => None,
+    }
+}
+
+fn cmp_directive(w: &DirSig, g: &DirSig) -> Result<(), String> {
+    let at = format!("directive @{}", w.name);
+    if w.repeatable != g.repeatable {
+        return Err(format!("{}: repeatable {} expected, SDL says {}", at, w.repeatable, g.repeatable));
+    }
+    let ws: BTreeSet<&String> = w.locations.iter().collect();
+    let gs: BTreeSet<&String> = g.locations.iter().collect();
+    if ws != gs {
+        return Err(format!("{}: locations {:?} expected, SDL says {:?}", at, w.locations, g.locations));
+    }
+    // descriptions of directive arguments are not compared (see assumptions)
+    let strip = |v: &[ArgDef]| v.iter().map(|a| ArgDef { desc: None, ..a.clone() }).collect::<Vec<_>>();
+    cmp_inputs(&format!("{} argument", at), &strip(&w.args), &strip(&g.args), false)
+}
+
+fn compare(e: &Expect, b: &Back, o: &O) -> Result<(), String> {
+    // root operation types
+    if !o.federation {
+        if !b.schema_definition {
+            return Err("no schema definition".into());
+        }
+        if (&e.sch.query, &e.sch.mutation, &e.sch.subscription) != (&b.sch.query, &b.sch.mutation, &b.sch.subscription) {
+            return Err(format!(
+                "root types: expected query={} mutation={:?} subscription={:?}, SDL says query={} mutation={:?} subscription={:?}",
+                e.sch.query, e.sch.mutation, e.sch.subscription, b.sch.query, b.sch.mutation, b.sch.subscription
+            ));
+        }
+    } else {
+        // subgraph form: `extend schema @link(..)`, roots by their default names, the subscription root is left out
+        if b.schema_extensions == 0 {
+            return Err("federation SDL without `extend schema @link`".into());
+        }
+        if e.sch.query != b.sch.query || e.sch.mutation != b.sch.mutation {
+            return Err(format!("root types: expected query={} mutation={:?}, SDL says query={} mutation={:?}", e.sch.query, e.sch.mutation, b.sch.query, b.sch.mutation));
+        }
+    }
+    let hidden = if o.federation { e.sch.subscription.clone() } else { None };
+    let want: Vec<&str> = e.sch.types.keys().filter(|k| Some(*k) != hidden.as_ref()).map(|k| k.as_str()).collect();
+    let got: Vec<&str> = b.sch.types.keys().map(|k| k.as_str()).collect();
+    same_names("named types", want.clone(), got, false)?;
+    for n in want {
+        cmp_type(&e.sch.types[n], &b.sch.types[n], o)?;
+    }
+    for (n, url) in &e.specified_by {
+        match b.specified_by.get(n) {
+            Some(u) if u == url => {}
+            None if !o.specified_by => {}
+            other => return Err(format!("scalar {}: specifiedBy url {:?} expected, SDL says {:?}", n, url, other)),
+        }
+    }
+    for n in b.specified_by.keys() {
+        if !e.specified_by.contains_key(n) {
+            return Err(format!("scalar {}: @specifiedBy invented", n));
+        }
+    }
+    // directive definitions: built-in ones may be left out, but a printed one has to be right; custom ones are required
+    for g in &b.directives {
+        if b.directives.iter().filter(|d| d.name == g.name).count() > 1 {
+            return Err(format!("directive @{} defined twice", g.name));
+        }
+        match e.custom_directives.iter().find(|d| d.name == g.name).cloned().or_else(|| builtin_directive(&g.name)) {
+            Some(w) => cmp_directive(&w, g)?,
+            None => return Err(format!("directive @{} is not part of the schema", g.name)),
+        }
+    }
+    for w in &e.custom_directives {
+        if !b.directives.iter().any(|d| d.name == w.name) {
+            return Err(format!("directive definition @{} is missing", w.name));
+        }
+    }
+    // applied custom directives
+    let paths: BTreeSet<&String> = e.applied.keys().chain(b.applied.keys()).collect();
+    let empty = vec![];
+    for p in paths {
+        if hidden.as_ref().map_or(false, |h| p == h || p.starts_with(&format!("{}.", h))) {
+            continue;
+        }
+        let w = e.applied.get(p).unwrap_or(&empty);
+        let g = b.applied.get(p).unwrap_or(&empty);
+        let same = w.len() == g.len() && w.iter().zip(g).all(|(x, y)| x.0 == y.0 && x.1.len() == y.1.len() && x.1.iter().zip(&y.1).all(|(p, q)| p.0 == q.0 && val_eq(&p.1, &q.1)));
+        if !same {
+            return Err(format!("directives applied to {}: expected {:?}, SDL says {:?}", p, w, g));
+        }
+    }
+    Ok(())
+}
+
+/// the strict oracle on one SDL text
+fn strict(sdl: &str, e: &Expect, o: &O) -> Result<(), String> {
+    if let Err(err) = async_graphql_parser::parse_schema(sdl) {
+        return Err(format!("async_graphql_parser::parse_schema rejects the SDL: {}", err));
+    }
+    let doc = parse_type_system(sdl, &Opts::default()).map_err(|e| format!("the reference parser rejects the SDL at {}:{}: {}", e.pos.line, e.pos.col, e.msg))?;
+    let back = read_back(&doc)?;
+    compare(e, &back, o)
+}
+
+// ---------------------------------------------------------------------------------------------------------------
+// known findings: exact quirks. Text quirks are given as "the SDL is the correct SDL except for this rendering";
+// they are undone on the text (repair) and the strict oracle is applied to the result.
+
+const FINDINGS: [&str; 5] = ["C17-F1", "C17-F2", "C17-F3", "C17-F4", "C17-F5"];
+
+/// `escape_string` of the exporter as it is today: everything but the double quote
+fn reason_as_exported(r: &str) -> String {
+    let mut out = String::new();
+    for c in r.chars() {
+        match c {
+            '\\' => out.push_str("\\\\"),
+            '\u{8}' => out.push_str("\\b"),
+            '\u{c}' => out.push_str("\\f"),
+            '\n' => out.push_str("\\n"),
+            '\r' => out.push_str("\\r"),
+            '\t' => out.push_str("\\t"),
+            c => out.push(c),
+        }
+    }
+    out
+}
+
+fn all_reasons(e: &Expect) -> Vec<String> {
+    let mut v = vec![];
+    for t in e.sch.types.values() {
+        for f in &t.fields {
+            v.extend(f.deprecated.clone().flatten());
+            for a in &f.args {
+                v.extend(a.deprecated.clone().flatten());
+            }
+        }
+        for x in &t.values {
+            v.extend(x.deprecated.clone().flatten());
+        }
+        for a in &t.input_fields {
+            v.extend(a.deprecated.clone().flatten());
+        }
+    }
+    v
+}
+fn all_descriptions(e: &Expect) -> Vec<String> {
+    let mut v = vec![];
+    for t in e.sch.types.values() {
+        v.extend(t.desc.clone());
+        for f in &t.fields {
+            v.extend(f.desc.clone());
+            for a in &f.args {
+                v.extend(a.desc.clone());
+            }
+        }
+        for x in &t.values {
+            v.extend(x.desc.clone());
+        }
+        for a in &t.input_fields {
+            v.extend(a.desc.clone());
+        }
+    }
+    v
+}
+
+/// C17-F1: a deprecation reason is written between double quotes with its own double quotes unescaped
+fn repair_f1(sdl: &str, e: &Expect) -> Option<String> {
+    let mut out = sdl.to_string();
+    let mut hit = false;
+    for r in all_reasons(e) {
+        if r.contains('"') {
+            let bad = format!("@deprecated(reason: \"{}\")", reason_as_exported(&r));
+            let good = format!("@deprecated(reason: \"{}\")", reason_as_exported(&r).replace('"', "\\\""));
+            if out.contains(&bad) {
+                out = out.replace(&bad, &good);
+                hit = true;
+            }
+        }
+    }
+    hit.then_some(out)
+}
+/// C17-F2: a description written as a block string keeps `"""` unescaped
+fn repair_f2(sdl: &str, e: &Expect, o: &O) -> Option<String> {
+    let mut out = sdl.to_string();
+    let mut hit = false;
+    for d in all_descriptions(e) {
+        if d.contains("\"\"\"") && !(o.single_line && !d.contains('\n')) {
+            for level in 0..3 {
+                let tabs = o.tab().repeat(level);
+                let block = |text: &str| format!("{tabs}\"\"\"\n{tabs}{}\n{tabs}\"\"\"\n", text.replace('\n', &format!("\n{tabs}")));
+                let bad = block(&d);
+                let good = block(&d.replace("\"\"\"", "\\\"\"\""));
+                if out.contains(&bad) {
+                    out = out.replace(&bad, &good);
+                    hit = true;
+                }
+            }
+        }
+    }
+    hit.then_some(out)
+}
+/// C17-F3: a description written as a one-line string keeps backslashes unescaped
+fn repair_f3(sdl: &str, e: &Expect, o: &O) -> Option<String> {
+    if !o.single_line {
+        return None;
+    }
+    let mut out = sdl.to_string();
+    let mut hit = false;
+    for d in all_descriptions(e) {
+        if d.contains('\\') && !d.contains('\n') {
+            for level in 0..3 {
+                let tabs = o.tab().repeat(level);
+                let bad = format!("{tabs}\"{}\"\n", d.replace('"', "\\\""));
+                let good = format!("{tabs}\"{}\"\n", d.replace('\\', "\\\\").replace('"', "\\\""));
+                if out.contains(&bad) {
+                    out = out.replace(&bad, &good);
+                    hit = true;
+                }
+            }
+        }
+    }
+    hit.then_some(out)
+}
+/// C17-F4 (dynamic schemas): the `implements` list of an interface is not exported
+fn adjust_f4(e: &Expect) -> Option<Expect> {
+    let mut e2 = e.clone();
+    let mut hit = false;
+    for t in e2.sch.types.values_mut() {
+        if t.kind == Kind::Interface && !t.interfaces.is_empty() {
+            t.interfaces.clear();
+            hit = true;
+        }
+    }
+    hit.then_some(e2)
+}
+/// C17-F5: `interface X @directive(..) implements Y {` — the directives are written before `implements`
+fn repair_f5(sdl: &str) -> Option<String> {
+    let mut hit = false;
+    let lines: Vec<String> = sdl
+        .split('\n')
+        .map(|l| {
+            if let Some(rest) = l.strip_prefix("interface ") {
+                if let (Some(at), Some(imp), Some(end)) = (rest.find(" @"), rest.rfind(" implements "), rest.rfind(" {")) {
+                    if at < imp && imp < end {
+                        hit = true;
+                        return format!("interface {}{}{} {{", &rest[..at], &rest[imp..end], &rest[at..imp]);
+                    }
+                }
+            }
+            l.to_string()
+        })
+        .collect();
+    hit.then(|| lines.join("\n"))
+}
+
+/// strict oracle, then attribution to the smallest set of OPEN findings whose quirks explain the deviation exactly
+fn judge_sdl(sdl: &str, e: &Expect, o: &O, dynamic: bool, open: &[bool; 5]) -> Result<Vec<&'static str>, String> {
+    let why = match strict(sdl, e, o) {
+        Ok(()) => return Ok(vec![]),
+        Err(w) => w,
+    };
+    let mut best: Option<Vec<&'static str>> = None;
+    for mask in 1u32..32 {
+        let set: Vec<usize> = (0..5).filter(|i| mask & (1 << i) != 0).collect();
+        if set.iter().any(|i| !open[*i]) || best.as_ref().map_or(false, |b| b.len() <= set.len()) {
+            continue;
+        }
+        let mut text = sdl.to_string();
+        let mut exp = e.clone();
+        let mut applicable = true;
+        for i in &set {
+            let r = match i {
+                0 => repair_f1(&text, e),
+                1 => repair_f2(&text, e, o),
+                2 => repair_f3(&text, e, o),
+                4 => repair_f5(&text),
+                _ => {
+                    match (dynamic, adjust_f4(&exp)) {
+                        (true, Some(e2)) => exp = e2,
+                        _ => applicable = false,
+                    }
+                    Some(text.clone())
+                }
+            };
+            match r {
+                Some(t) => text = t,
+                None => applicable = false,
+            }
+        }
+        if applicable && strict(&text, &exp, o).is_ok() {
+            best = Some(set.iter().map(|i| FINDINGS[*i]).collect());
+        }
+    }
+    best.ok_or(why)
+}
+
+// ---------------------------------------------------------------------------------------------------------------
+// nasty text
+
+#[derive(Clone, Copy)]
+struct Allow {
+    quote_in_reason: bool,
+    triple_quote_in_description: bool,
+    backslash_in_one_line_description: bool,
+    interface_inheritance: bool,
+}
+
+const TOKENS: [&str; 36] = [
+    "a", "Word", " ", "  ", "\t", "\"", "\"\"", "\"\"\"", "\\", "\\\"", "\\\"\"\"", "\\n", "\\u0041", "\\", "#", "{", "}", "@d", "&", "|", "=", "😀", "𝄞", "é", "\u{2028}", "\u{feff}", "\u{7f}",
+    "\u{a0}", "'", "$x", "!", "(", ")", ":", "\u{10ffff}", "ß",
+];
+
+fn gen_piece(s: &mut dyn Src, out: &mut String, extra: &[char]) {
+    match s.weighted(&[10, 2, 1]) {
+        0 => out.push_str(TOKENS[s.choose(TOKENS.len())]),
+        1 => {
+            let c = vcore::gens::gen_char(s);
+            if (c as u32) >= 0x20 || c == '\t' || extra.contains(&c) {
+                out.push(c);
+            }
+        }
+        _ => {
+            if !extra.is_empty() {
+                out.push(extra[s.choose(extra.len())]);
+            }
+        }
+    }
+}
+
+/// text a block string can carry: no `\r`, no raw control characters but TAB / LF, first line starts with a non-blank
+/// character (so there is no common indentation and no leading blank line), last line is not blank
+fn gen_description(s: &mut dyn Src, allow: &Allow) -> String {
+    let n_lines = 1 + s.weighted(&[5, 3, 1]);
+    let mut lines = vec![];
+    for _ in 0..n_lines {
+        let mut l = String::new();
+        for _ in 0..s.choose(5) {
+            gen_piece(s, &mut l, &[]);
+        }
+        lines.push(l);
+    }
+    let blank = |l: &str| l.chars().all(|c| c == ' ' || c == '\t');
+    if n_lines > 1 || !lines[0].is_empty() {
+        if lines[0].starts_with(' ') || lines[0].starts_with('\t') || lines[0].is_empty() {
+            lines[0].insert(0, 'd');
+        }
+        let last = lines.len() - 1;
+        if blank(&lines[last]) {
+            lines[last].push('e');
+        }
+    }
+    let mut d = lines.join("\n");
+    if !allow.triple_quote_in_description {
+        while d.contains("\"\"\"") {
+            d = d.replace("\"\"\"", "\"\"x");
+        }
+    }
+    if !allow.backslash_in_one_line_description && d.contains('\\') && !d.contains('\n') {
+        d.push_str("\nz");
+    }
+    d
+}
+
+fn gen_reason(s: &mut dyn Src, allow: &Allow) -> String {
+    let mut r = String::new();
+    for _ in 0..s.choose(6) {
+        gen_piece(s, &mut r, &['\n', '\r', '\u{8}', '\u{c}']);
+    }
+    if !allow.quote_in_reason {
+        r = r.replace('"', "'");
+    }
+    r
+}
+
+fn needs_escape(t: &str) -> bool {
+    t.chars().any(|c| c == '"' || c == '\\' || (c as u32) < 0x20 || (c as u32) > 0xffff)
+}
+
+/// put descriptions, deprecations and nasty string defaults on every kind of element
+fn decorate(sch: &mut Sch, s: &mut dyn Src, allow: &Allow) -> BTreeMap<String, String> {
+    let mut specified_by = BTreeMap::new();
+    let deprecation = |s: &mut dyn Src, allow: &Allow| -> Option<Option<String>> {
+        if s.chance(1, 4) {
+            Some(if s.chance(1, 4) { None } else { Some(gen_reason(s, allow)) })
+        } else {
+            None
+        }
+    };
+    let input = |s: &mut dyn Src, a: &mut ArgDef, one_of: bool, allow: &Allow| {
+        if s.chance(1, 3) {
+            a.desc = Some(gen_description(s, allow));
+        }
+        if a.ty == Ty::named("String") && !one_of && s.chance(1, 2) {
+            a.default = Some(Val::Str(vcore::gens::gen_string(s, 6)));
+        }
+        // only optional arguments / input fields can be deprecated
+        if !one_of && !(a.ty.is_nn() && a.default.is_none()) {
+            a.deprecated = deprecation(s, allow);
+        }
+    };
+    for t in sch.types.values_mut() {
+        if s.chance(1, 2) {
+            t.desc = Some(gen_description(s, allow));
+        }
+        if t.kind == Kind::Scalar && s.bool() {
+            specified_by.insert(t.name.clone(), format!("https://example.com/spec/{}", t.name));
+        }
+        for f in &mut t.fields {
+            if s.chance(1, 3) {
+                f.desc = Some(gen_description(s, allow));
+            }
+            f.deprecated = deprecation(s, allow);
+            for a in &mut f.args {
+                input(s, a, false, allow);
+            }
+        }
+        for v in &mut t.values {
+            if s.chance(1, 3) {
+                v.desc = Some(gen_description(s, allow));
+            }
+            v.deprecated = deprecation(s, allow);
+        }
+        let one_of = t.one_of;
+        for a in &mut t.input_fields {
+            input(s, a, one_of, allow);
+        }
+    }
+    specified_by
+}
+
+// ---------------------------------------------------------------------------------------------------------------
+// Sch -> dynamic schema, forwarding every description and deprecation (resolvers are never called)
+
+fn input_value(a: &ArgDef) -> dy::InputValue {
+    let mut iv = dy::InputValue::new(a.name.clone(), type_ref(&a.ty));
+    if let Some(d) = &a.default {
+        iv = iv.default_value(val_to_value(d));
+    }
+    if let Some(d) = &a.desc {
+        iv = iv.description(d.clone());
+    }
+    if let Some(r) = &a.deprecated {
+        iv = iv.deprecation(r.as_deref());
+    }
+    iv
+}
+
+fn build_full(sch: &Sch, specified_by: &BTreeMap<String, String>) -> Result<dy::Schema, dy::SchemaError> {
+    let mut b = dy::Schema::build(&sch.query, sch.mutation.as_deref(), sch.subscription.as_deref());
+    for td in sch.types.values() {
+        match td.kind {
+            Kind::Scalar => {
+                let mut x = dy::Scalar::new(td.name.clone());
+                if let Some(d) = &td.desc {
+                    x = x.description(d.clone());
+                }
+                if let Some(u) = specified_by.get(&td.name) {
+                    x = x.specified_by_url(u.clone());
+                }
+                b = b.register(x);
+            }
+            Kind::Enum => {
+                let mut x = dy::Enum::new(td.name.clone());
+                for v in &td.values {
+                    let mut item = dy::EnumItem::new(v.name.clone());
+                    if let Some(d) = &v.desc {
+                        item = item.description(d.clone());
+                    }
+                    if let Some(r) = &v.deprecated {
+                        item = item.deprecation(r.as_deref());
+                    }
+                    x = x.item(item);
+                }
+                if let Some(d) = &td.desc {
+                    x = x.description(d.clone());
+                }
+                b = b.register(x);
+            }
+            Kind::Input => {
+                let mut x = dy::InputObject::new(td.name.clone());
+                for f in &td.input_fields {
+                    x = x.field(input_value(f));
+                }
+                if td.one_of {
+                    x = x.oneof();
+                }
+                if let Some(d) = &td.desc {
+                    x = x.description(d.clone());
+                }
+                b = b.register(x);
+            }
+            Kind::Union => {
+                let mut x = dy::Union::new(td.name.clone());
+                for m in &td.members {
+                    x = x.possible_type(m.clone());
+                }
+                if let Some(d) = &td.desc {
+                    x = x.description(d.clone());
+                }
+                b = b.register(x);
+            }
+            Kind::Interface => {
+                let mut x = dy::Interface::new(td.name.clone());
+                for f in &td.fields {
+                    let mut xf = dy::InterfaceField::new(f.name.clone(), type_ref(&f.ty));
+                    for a in &f.args {
+                        xf = xf.argument(input_value(a));
+                    }
+                    if let Some(d) = &f.desc {
+                        xf = xf.description(d.clone());
+                    }
+                    if let Some(r) = &f.deprecated {
+                        xf = xf.deprecation(r.as_deref());
+                    }
+                    x = x.field(xf);
+                }
+                for i in &td.interfaces {
+                    x = x.implement(i.clone());
+                }
+                if let Some(d) = &td.desc {
+                    x = x.description(d.clone());
+                }
+                b = b.register(x);
+            }
+            Kind::Object if Some(&td.name) == sch.subscription.as_ref() => {
+                let mut x = dy::Subscription::new(td.name.clone());
+                for f in &td.fields {
+                    let mut xf = dy::SubscriptionField::new(f.name.clone(), type_ref(&f.ty), |_| {
+                        dy::SubscriptionFieldFuture::new(async { Ok(futures_util::stream::iter(Vec::<async_graphql::Result<dy::FieldValue<'static>>>::new())) })
+                    });
+                    for a in &f.args {
+                        xf = xf.argument(input_value(a));
+                    }
+                    if let Some(d) = &f.desc {
+                        xf = xf.description(d.clone());
+                    }
+                    if let Some(r) = &f.deprecated {
+                        xf = xf.deprecation(r.as_deref());
+                    }
+                    x = x.field(xf);
+                }
+                if let Some(d) = &td.desc {
+                    x = x.description(d.clone());
+                }
+                b = b.register(x);
+            }
+            Kind::Object => {
+                let mut x = dy::Object::new(td.name.clone());
+                for f in &td.fields {
+                    let mut xf = dy::Field::new(f.name.clone(), type_ref(&f.ty), |_| dy::FieldFuture::from_value(None));
+                    for a in &f.args {
+                        xf = xf.argument(input_value(a));
+                    }
+                    if let Some(d) = &f.desc {
+                        xf = xf.description(d.clone());
+                    }
+                    if let Some(r) = &f.deprecated {
+                        xf = xf.deprecation(r.as_deref());
+                    }
+                    x = x.field(xf);
+                }
+                for i in &td.interfaces {
+                    x = x.implement(i.clone());
+                }
+                if let Some(d) = &td.desc {
+                    x = x.description(d.clone());
+                }
+                b = b.register(x);
+            }
+        }
+    }
+    b.finish()
+}
+
+fn show_expect(e: &Expect) -> String {
+    let mut texts: Vec<String> = vec![];
+    for t in e.sch.types.values() {
+        let mut note = |path: String, d: &Option<String>, dep: Option<&Option<Option<String>>>| {
+            if let Some(d) = d {
+                texts.push(format!("{} desc={:?}", path, d));
+            }
+            if let Some(Some(r)) = dep {
+                texts.push(format!("{} deprecated={:?}", path, r));
+            }
+        };
+        note(t.name.clone(), &t.desc, None);
+        for f in &t.fields {
+            note(format!("{}.{}", t.name, f.name), &f.desc, Some(&f.deprecated));
+            for a in &f.args {
+                note(format!("{}.{}({})", t.name, f.name, a.name), &a.desc, Some(&a.deprecated));
+            }
+        }
+        for v in &t.values {
+            note(format!("{}.{}", t.name, v.name), &v.desc, Some(&v.deprecated));
+        }
+        for a in &t.input_fields {
+            note(format!("{}.{}", t.name, a.name), &a.desc, Some(&a.deprecated));
+        }
+    }
+    format!("schema: {}\ntexts: {}\nspecifiedBy: {:?}", show_sch(&e.sch), texts.join("; "), e.specified_by)
+}
+
+struct Tally {
+    escapes: bool,
+    inheritance: bool,
+}
+fn tally(e: &Expect) -> Tally {
+    let escapes = all_descriptions(e).iter().chain(all_reasons(e).iter()).any(|t| needs_escape(t))
+        || e.sch.types.values().any(|t| {
+            t.input_fields.iter().chain(t.fields.iter().flat_map(|f| f.args.iter())).any(|a| matches!(&a.default, Some(Val::Str(x)) if needs_escape(x)))
+        });
+    let inheritance = e.sch.types.values().any(|t| t.kind == Kind::Interface && !t.interfaces.is_empty());
+    Tally { escapes, inheritance }
+}
+
+/// one exported text against its source
+fn one_export(sdl: &str, e: &Expect, o: &O, dynamic: bool, open: &[bool; 5], what: &str) -> Case {
+    let t = tally(e);
+    let text = format!("{}\noptions: {}", what, o.show());
+    let c = match judge_sdl(sdl, e, o, dynamic, open) {
+        Ok(ids) if ids.is_empty() => Case::pass(text),
+        Ok(ids) => Case::known(text, ids.iter().map(|s| s.to_string()).collect()),
+        Err(why) => Case::fail(format!("{}\nSDL:\n{}", text, sdl), why),
+    };
+    let nontrivial = t.escapes || t.inheritance || *o != O::default();
+    c.nontrivial(nontrivial)
+        .class_if(t.escapes, "text-needing-escape")
+        .class_if(t.inheritance, "interface-implements-interface")
+        .class_if(*o != O::default(), "non-default-options")
+        .class_if(o.federation, "option:federation")
+        .class_if(o.single_line, "option:prefer_single_line_descriptions")
+        .class_if(o.sorted_fields || o.sorted_arguments || o.sorted_enum_items, "option:sorted")
+        .class_if(o.space_indent, "option:use_space_ident")
+}
+
+fn gen_dynamic(s: &mut dyn Src, allow: &Allow) -> Result<(Expect, dy::Schema), Case> {
+    let mut sch = gen_sch(s, &SchCfg { subscription: true, interface_inheritance: allow.interface_inheritance, ..SchCfg::default() });
+    let specified_by = decorate(&mut sch, s, allow);
+    let e = Expect { sch, specified_by, custom_directives: vec![], applied: BTreeMap::new() };
+    match build_full(&e.sch, &e.specified_by) {
+        Ok(schema) => Ok((e, schema)),
+        Err(err) => Err(Case::fail(show_expect(&e), format!("HARNESS: generated schema does not build: {}", err.0))),
+    }
+}
+
+/// a generated dynamic schema under the default options and `k` drawn option sets; the first deviation decides
+fn dynamic_case(s: &mut dyn Src, allow: &Allow, open: &[bool; 5], k: usize) -> Case {
+    let (e, schema) = match gen_dynamic(s, allow) {
+        Ok(x) => x,
+        Err(c) => return c,
+    };
+    let what = show_expect(&e);
+    let mut opts = vec![O::default()];
+    for _ in 0..k {
+        opts.push(gen_options(s));
+    }
+    let mut known: BTreeSet<String> = BTreeSet::new();
+    let mut classes: BTreeSet<String> = BTreeSet::new();
+    let mut nontrivial = false;
+    for o in &opts {
+        let sdl = if *o == O::default() { schema.sdl() } else { schema.sdl_with_options(o.build()) };
+        let c = one_export(&sdl, &e, o, true, open, &what);
+        nontrivial |= c.nontrivial;
+        classes.extend(c.classes.iter().cloned());
+        if c.is_fail() {
+            return c;
+        }
+        if let vcore::drive::Verdict::Known(ids) = c.verdict {
+            known.extend(ids);
+        }
+    }
+    let text = format!("{}\noptions: {}", what, opts.iter().map(|o| o.show()).collect::<Vec<_>>().join(" | "));
+    let mut c = if known.is_empty() { Case::pass(text) } else { Case::known(text, known.into_iter().collect()) };
+    c.nontrivial = nontrivial;
+    for cl in classes {
+        c = c.class(cl);
+    }
+    c
+}
+
+// ---------------------------------------------------------------------------------------------------------------
+// static family: `nst` (every element kind with nasty text, none of the constructs of the known findings) and `prb`
+// (exactly those constructs). The expectation tables below are written by hand from the Rust definitions.
+
+#[allow(non_snake_case, non_camel_case_types, dead_code, unused_variables)]
+mod nst {
+    use async_graphql::*;
+    use futures_util::stream::{self, Stream};
+    use serde::{Deserialize, Serialize};
+
+    #[TypeDirective(
+        location = "FieldDefinition",
+        location = "Object",
+        location = "Interface",
+        location = "ArgumentDefinition",
+        location = "InputObject",
+        location = "InputFieldDefinition",
+        location = "Enum",
+        location = "EnumValue",
+        composable = "https://example.com/note/v1.0"
+    )]
+    pub fn note(text: String, level: Option<i32>) {}
+
+    #[TypeDirective(location = "FieldDefinition", repeatable)]
+    pub fn again() {}
+
+    #[doc = "Mood \"quoted\" 'single' 😀 \u{10ffff}"]
+    #[doc = "second \\ line with a backslash and a tab\there"]
+    #[derive(Enum, Copy, Clone, Eq, PartialEq)]
+    #[graphql(directive = note::apply("enum \"x\" \\ \n \u{1} 😀".to_string(), Some(1)))]
+    pub enum Mood {
+        #[doc = "value doc \"\" two quotes"]
+        #[graphql(directive = note::apply("value".to_string(), None))]
+        Happy,
+        #[graphql(deprecation = "back\\slash, tab\t, newline\n, bell\u{8}, feed\u{c}, cr\r, 😀, é")]
+        Sad,
+        #[graphql(deprecation)]
+        Meh,
+    }
+
+    #[derive(Serialize, Deserialize, Clone)]
+    pub struct Stamp(pub i64);
+    scalar!(Stamp, "Stamp", "A stamp's \"description\"", "https://example.com/stamp");
+
+    #[doc = "inner input"]
+    #[derive(InputObject)]
+    pub struct Inner {
+        #[graphql(default = 7)]
+        pub a: i32,
+        #[graphql(default = "q\"b\\s\n\u{1}\u{7f}😀")]
+        pub b: String,
+    }
+    impl Default for Inner {
+        fn default() -> Self {
+            Inner { a: -3, b: "de\"fault".to_string() }
+        }
+    }
+
+    #[doc = "Filter input"]
+    #[doc = "  indented \"second\" line"]
+    #[derive(InputObject)]
+    #[graphql(directive = note::apply("input".to_string(), Some(-2)))]
+    pub struct Filter {
+        #[doc = "text field: # not a comment, { } [ ] : = @ | & !"]
+        #[graphql(default = "quote\" backslash\\ newline\n tab\t nul\u{0} del\u{7f} nbsp\u{a0} ls\u{2028} bom\u{feff} 😀 𝄞")]
+        pub text: String,
+        #[graphql(default_with = "vec![1, -2, 2147483647]")]
+        pub nums: Vec<i32>,
+        #[graphql(default_with = "Mood::Sad")]
+        pub mood: Mood,
+        #[graphql(default)]
+        pub inner: Inner,
+        #[graphql(deprecation = "old 'field' \\ gone")]
+        pub old: Option<i32>,
+        #[graphql(default = true, directive = note::apply("input field".to_string(), None))]
+        pub flag: bool,
+        #[graphql(default = 1.5)]
+        pub ratio: f64,
+        #[graphql(default_with = "vec![vec![Some(\"a\\\"b\".to_string()), None]]")]
+        pub grid: Vec<Vec<Option<String>>>,
+    }
+
+    #[doc = "pick exactly \"one\""]
+    #[derive(OneofObject)]
+    pub enum Pick {
+        #[doc = "by id"]
+        ById(ID),
+        ByName(String),
+    }
+
+    pub struct Dog;
+    #[doc = "A dog \\ backslash"]
+    #[doc = "and a second line"]
+    #[Object(directive = note::apply("object".to_string(), None))]
+    impl Dog {
+        async fn id(&self) -> ID {
+            ID::from("d")
+        }
+        #[doc = "name 'of' the \"dog\""]
+        async fn name(&self, #[graphql(desc = "prefix \"desc\"", default = "Mr. \"X\" \\ \n")] prefix: String) -> String {
+            prefix
+        }
+        #[graphql(deprecation = "use 'name' — 😀 \\ \t end", directive = again::apply(), directive = again::apply())]
+        async fn age(&self) -> i32 {
+            1
+        }
+    }
+
+    pub struct Cat;
+    #[Object]
+    impl Cat {
+        async fn id(&self) -> ID {
+            ID::from("c")
+        }
+        async fn name(&self, #[graphql(default = "Mr. \"X\" \\ \n")] prefix: String) -> String {
+            prefix
+        }
+        #[graphql(deprecation)]
+        async fn lives(&self) -> Option<i32> {
+            None
+        }
+    }
+
+    pub struct Robot;
+    #[Object]
+    impl Robot {
+        async fn id(&self) -> ID {
+            ID::from("r")
+        }
+        #[doc = "serial \"number\""]
+        async fn serial(&self) -> Option<Stamp> {
+            None
+        }
+    }
+
+    #[doc = "Named things"]
+    #[derive(Interface)]
+    #[graphql(
+        field(name = "id", ty = "ID", desc = "the \"id\""),
+        field(
+            name = "name",
+            ty = "String",
+            desc = "interface name\nsecond line \\",
+            arg(name = "prefix", ty = "String", desc = "interface 'arg' \"desc\"", default = "Mr. \"X\" \\ \n")
+        )
+    )]
+    pub enum Named {
+        Dog(Dog),
+        Cat(Cat),
+    }
+
+    #[doc = "Node: everything with an id"]
+    #[derive(Interface)]
+    #[graphql(field(name = "id", ty = "ID"), directive = note::apply("interface".to_string(), Some(0)))]
+    pub enum Node {
+        Named(Named),
+        Robot(Robot),
+    }
+
+    #[doc = "cats & dogs"]
+    #[derive(Union)]
+    pub enum Pet {
+        Dog(Dog),
+        Cat(Cat),
+    }
+
+    pub struct Query;
+    #[doc = "The query root \"type\""]
+    #[Object]
+    impl Query {
+        #[doc = "a pet"]
+        async fn pet(
+            &self,
+            #[graphql(desc = "kind \\ of\npet \"multi-line\"", default = "dog")] kind: String,
+            #[graphql(deprecation = "legacy 'argument' \\ 😀", directive = note::apply("argument".to_string(), None))] legacy: Option<i32>,
+            #[graphql(deprecation)] unused: Option<bool>,
+        ) -> Option<Pet> {
+            None
+        }
+        async fn node(&self, id: ID) -> Option<Node> {
+            None
+        }
+        async fn named(&self) -> Vec<Named> {
+            vec![]
+        }
+        #[graphql(directive = note::apply("field \"x\"".to_string(), Some(2147483647)))]
+        async fn search(&self, filter: Filter, #[graphql(default_with = "vec![Mood::Happy, Mood::Meh]")] moods: Vec<Mood>, inner: Option<Inner>) -> Vec<Dog> {
+            vec![]
+        }
+        async fn pick(&self, p: Pick) -> Option<Stamp> {
+            None
+        }
+    }
+
+    pub struct Mutation;
+    #[Object]
+    impl Mutation {
+        async fn set_mood(&self, #[graphql(default_with = "Mood::Happy")] mood: Mood) -> bool {
+            true
+        }
+    }
+
+    pub struct Subscription;
+    #[Subscription]
+    impl Subscription {
+        #[doc = "ticks \"forever\""]
+        async fn ticks(&self, #[graphql(default = 1)] step: i32) -> impl Stream<Item = i32> {
+            stream::iter(vec![step])
+        }
+    }
+
+    pub fn sdl(o: SDLExportOptions) -> String {
+        Schema::build(Query, Mutation, Subscription).finish().sdl_with_options(o)
+    }
+}
+
+#[allow(non_snake_case, non_camel_case_types, dead_code, unused_variables)]
+mod prb {
+    use async_graphql::*;
+
+    #[TypeDirective(location = "Interface")]
+    pub fn mark(n: i32) {}
+
+    #[derive(SimpleObject)]
+    pub struct Leaf {
+        #[graphql(deprecation = "say \"no\" \\ twice \"\"")]
+        pub a: i32,
+        #[doc = "one line with a back\\slash and a \"quote\""]
+        pub b: i32,
+        #[doc = "has \"\"\" inside"]
+        #[doc = "and \\\"\"\" too"]
+        pub c: i32,
+    }
+
+    #[derive(Interface)]
+    #[graphql(field(name = "a", ty = "&i32"), directive = mark::apply(1))]
+    pub enum Mid {
+        Leaf(Leaf),
+    }
+
+    #[derive(Interface)]
+    #[graphql(field(name = "a", ty = "&i32"))]
+    pub enum Base {
+        Mid(Mid),
+    }
+
+    pub struct Query;
+    #[Object]
+    impl Query {
+        async fn base(&self) -> Option<Base> {
+            None
+        }
+    }
+
+    pub fn sdl(o: SDLExportOptions) -> String {
+        Schema::build(Query, EmptyMutation, EmptySubscription).finish().sdl_with_options(o)
+    }
+}
+
+// ---- hand-written expectation tables
+
+fn t(name: &str, kind: Kind) -> TypeDef {
+    TypeDef::new(name, kind)
+}
+fn f(name: &str, ty: &str) -> FieldDef {
+    FieldDef { name: name.into(), args: vec![], ty: Ty::parse(ty), desc: None, deprecated: None }
+}
+fn a(name: &str, ty: &str) -> ArgDef {
+    ArgDef { name: name.into(), ty: Ty::parse(ty), default: None, desc: None, deprecated: None }
+}
+fn ev(name: &str) -> EnumValDef {
+    EnumValDef { name: name.into(), desc: None, deprecated: None }
+}
+fn vs(x: &str) -> Val {
+    Val::Str(x.into())
+}
+fn vi(x: i64) -> Val {
+    Val::Int(x.to_string())
+}
+fn vl(xs: Vec<Val>) -> Val {
+    Val::List(xs.into_iter().map(PVal::new).collect())
+}
+fn vo(xs: Vec<(&str, Val)>) -> Val {
+    Val::Obj(xs.into_iter().map(|(k, v)| (Name::new(k), PVal::new(v))).collect())
+}
+trait With: Sized {
+    fn d(self, desc: &str) -> Self;
+    fn dep(self, reason: Option<&str>) -> Self;
+}
+impl With for FieldDef {
+    fn d(mut self, desc: &str) -> Self {
+        self.desc = Some(desc.into());
+        self
+    }
+    fn dep(mut self, reason: Option<&str>) -> Self {
+        self.deprecated = Some(reason.map(|r| r.to_string()));
+        self
+    }
+}
+impl With for ArgDef {
+    fn d(mut self, desc: &str) -> Self {
+        self.desc = Some(desc.into());
+        self
+    }
+    fn dep(mut self, reason: Option<&str>) -> Self {
+        self.deprecated = Some(reason.map(|r| r.to_string()));
+        self
+    }
+}
+impl With for EnumValDef {
+    fn d(mut self, desc: &str) -> Self {
+        self.desc = Some(desc.into());
+        self
+    }
+    fn dep(mut self, reason: Option<&str>) -> Self {
+        self.deprecated = Some(reason.map(|r| r.to_string()));
+        self
+    }
+}
+fn def(mut x: ArgDef, v: Val) -> ArgDef {
+    x.default = Some(v);
+    x
+}
+fn args(mut x: FieldDef, xs: Vec<ArgDef>) -> FieldDef {
+    x.args = xs;
+    x
+}
+
+fn expect_nst() -> Expect {
+    let mut s = Sch { query: "Query".into(), mutation: Some("Mutation".into()), subscription: Some("Subscription".into()), ..Sch::default() };
+    let mut add = |td: TypeDef| {
+        s.types.insert(td.name.clone(), td);
+    };
+    let prefix_default = "Mr. \"X\" \\ \n";
+
+    let mut mood = t("Mood", Kind::Enum);
+    mood.desc = Some("Mood \"quoted\" 'single' 😀 \u{10ffff}\nsecond \\ line with a backslash and a tab\there".into());
+    mood.values = vec![
+        ev("HAPPY").d("value doc \"\" two quotes"),
+        ev("SAD").dep(Some("back\\slash, tab\t, newline\n, bell\u{8}, feed\u{c}, cr\r, 😀, é")),
+        ev("MEH").dep(None),
+    ];
+    add(mood);
+
+    let mut stamp = t("Stamp", Kind::Scalar);
+    stamp.desc = Some("A stamp's \"description\"".into());
+    add(stamp);
+
+    let mut inner = t("Inner", Kind::Input);
+    inner.desc = Some("inner input".into());
+    inner.input_fields = vec![def(a("a", "Int!"), vi(7)), def(a("b", "String!"), vs("q\"b\\s\n\u{1}\u{7f}😀"))];
+    add(inner);
+
+    let mut filter = t("Filter", Kind::Input);
+    filter.desc = Some("Filter input\nindented \"second\" line".into());
+    filter.input_fields = vec![
+        def(a("text", "String!"), vs("quote\" backslash\\ newline\n tab\t nul\u{0} del\u{7f} nbsp\u{a0} ls\u{2028} bom\u{feff} 😀 𝄞")).d("text field: # not a comment, { } [ ] : = @ | & !"),
+        def(a("nums", "[Int!]!"), vl(vec![vi(1), vi(-2), vi(2147483647)])),
+        def(a("mood", "Mood!"), Val::Enum("SAD".into())),
+        def(a("inner", "Inner!"), vo(vec![("a", vi(-3)), ("b", vs("de\"fault"))])),
+        a("old", "Int").dep(Some("old 'field' \\ gone")),
+        def(a("flag", "Boolean!"), Val::Bool(true)),
+        def(a("ratio", "Float!"), Val::Float("1.5".into())),
+        def(a("grid", "[[String]!]!"), vl(vec![vl(vec![vs("a\"b"), Val::Null])])),
+    ];
+    add(filter);
+
+    let mut pick = t("Pick", Kind::Input);
+    pick.desc = Some("pick exactly \"one\"".into());
+    pick.one_of = true;
+    pick.input_fields = vec![a("byId", "ID").d("by id"), a("byName", "String")];
+    add(pick);
+
+    let mut dog = t("Dog", Kind::Object);
+    dog.desc = Some("A dog \\ backslash\nand a second line".into());
+    dog.interfaces = vec!["Named".into()];
+    dog.fields = vec![
+        f("id", "ID!"),
+        args(f("name", "String!").d("name 'of' the \"dog\""), vec![def(a("prefix", "String!"), vs(prefix_default)).d("prefix \"desc\"")]),
+        f("age", "Int!").dep(Some("use 'name' — 😀 \\ \t end")),
+    ];
+    add(dog);
+
+    let mut cat = t("Cat", Kind::Object);
+    cat.interfaces = vec!["Named".into()];
+    cat.fields = vec![f("id", "ID!"), args(f("name", "String!"), vec![def(a("prefix", "String!"), vs(prefix_default))]), f("lives", "Int").dep(None)];
+    add(cat);
+
+    let mut robot = t("Robot", Kind::Object);
+    robot.interfaces = vec!["Node".into()];
+    robot.fields = vec![f("id", "ID!"), f("serial", "Stamp").d("serial \"number\"")];
+    add(robot);
+
+    let mut named = t("Named", Kind::Interface);
+    named.desc = Some("Named things".into());
+    named.interfaces = vec!["Node".into()];
+    named.fields = vec![
+        f("id", "ID!").d("the \"id\""),
+        args(f("name", "String!").d("interface name\nsecond line \\"), vec![def(a("prefix", "String!"), vs(prefix_default)).d("interface 'arg' \"desc\"")]),
+    ];
+    add(named);
+
+    let mut node = t("Node", Kind::Interface);
+    node.desc = Some("Node: everything with an id".into());
+    node.fields = vec![f("id", "ID!")];
+    add(node);
+
+    let mut pet = t("Pet", Kind::Union);
+    pet.desc = Some("cats & dogs".into());
+    pet.members = vec!["Dog".into(), "Cat".into()];
+    add(pet);
+
+    let mut q = t("Query", Kind::Object);
+    q.desc = Some("The query root \"type\"".into());
+    q.fields = vec![
+        args(
+            f("pet", "Pet").d("a pet"),
+            vec![
+                def(a("kind", "String!"), vs("dog")).d("kind \\ of\npet \"multi-line\""),
+                a("legacy", "Int").dep(Some("legacy 'argument' \\ 😀")),
+                a("unused", "Boolean").dep(None),
+            ],
+        ),
+        args(f("node", "Node"), vec![a("id", "ID!")]),
+        f("named", "[Named!]!"),
+        args(
+            f("search", "[Dog!]!"),
+            vec![a("filter", "Filter!"), def(a("moods", "[Mood!]!"), vl(vec![Val::Enum("HAPPY".into()), Val::Enum("MEH".into())])), a("inner", "Inner")],
+        ),
+        args(f("pick", "Stamp"), vec![a("p", "Pick!")]),
+    ];
+    add(q);
+
+    let mut m = t("Mutation", Kind::Object);
+    m.fields = vec![args(f("setMood", "Boolean!"), vec![def(a("mood", "Mood!"), Val::Enum("HAPPY".into()))])];
+    add(m);
+
+    let mut sub = t("Subscription", Kind::Object);
+    sub.fields = vec![args(f("ticks", "Int!").d("ticks \"forever\""), vec![def(a("step", "Int!"), vi(1))])];
+    add(sub);
+
+    let note = |text: &str, level: Option<i64>| -> Applied {
+        let mut v = vec![("text".to_string(), vs(text))];
+        if let Some(l) = level {
+            v.push(("level".to_string(), vi(l)));
+        }
+        ("note".to_string(), v)
+    };
+    let mut applied: BTreeMap<String, Vec<Applied>> = BTreeMap::new();
+    applied.insert("Mood".into(), vec![note("enum \"x\" \\ \n \u{1} 😀", Some(1))]);
+    applied.insert("Mood.HAPPY".into(), vec![note("value", None)]);
+    applied.insert("Filter".into(), vec![note("input", Some(-2))]);
+    applied.insert("Filter.flag".into(), vec![note("input field", None)]);
+    applied.insert("Dog".into(), vec![note("object", None)]);
+    applied.insert("Dog.age".into(), vec![("again".into(), vec![]), ("again".into(), vec![])]);
+    applied.insert("Node".into(), vec![note("interface", Some(0))]);
+    applied.insert("Query.pet(legacy)".into(), vec![note("argument", None)]);
+    applied.insert("Query.search".into(), vec![note("field \"x\"", Some(2147483647))]);
+
+    let locs = |xs: &[&str]| xs.iter().map(|x| x.to_string()).collect::<Vec<_>>();
+    let custom_directives = vec![
+        DirSig {
+            name: "note".into(),
+            args: vec![a("text", "String!"), a("level", "Int")],
+            repeatable: false,
+            locations: locs(&["FIELD_DEFINITION", "OBJECT", "INTERFACE", "ARGUMENT_DEFINITION", "INPUT_OBJECT", "INPUT_FIELD_DEFINITION", "ENUM", "ENUM_VALUE"]),
+        },
+        DirSig { name: "again".into(), args: vec![], repeatable: true, locations: locs(&["FIELD_DEFINITION"]) },
+    ];
+    let mut specified_by = BTreeMap::new();
+    specified_by.insert("Stamp".to_string(), "https://example.com/stamp".to_string());
+    Expect { sch: s, specified_by, custom_directives, applied }
+}
+
+fn expect_prb() -> Expect {
+    let mut s = Sch { query: "Query".into(), ..Sch::default() };
+    let mut leaf = t("Leaf", Kind::Object);
+    leaf.interfaces = vec!["Mid".into()];
+    leaf.fields = vec![
+        f("a", "Int!").dep(Some("say \"no\" \\ twice \"\"")),
+        f("b", "Int!").d("one line with a back\\slash and a \"quote\""),
+        f("c", "Int!").d("has \"\"\" inside\nand \\\"\"\" too"),
+    ];
+    s.types.insert("Leaf".into(), leaf);
+    let mut mid = t("Mid", Kind::Interface);
+    mid.interfaces = vec!["Base".into()];
+    mid.fields = vec![f("a", "Int!")];
+    s.types.insert("Mid".into(), mid);
+    let mut base = t("Base", Kind::Interface);
+    base.fields = vec![f("a", "Int!")];
+    s.types.insert("Base".into(), base);
+    let mut q = t("Query", Kind::Object);
+    q.fields = vec![f("base", "Base")];
+    s.types.insert("Query".into(), q);
+    let mut applied: BTreeMap<String, Vec<Applied>> = BTreeMap::new();
+    applied.insert("Mid".into(), vec![("mark".into(), vec![("n".into(), vi(1))])]);
+    let custom_directives = vec![DirSig { name: "mark".into(), args: vec![a("n", "Int!")], repeatable: false, locations: vec!["INTERFACE".into()] }];
+    Expect { sch: s, specified_by: BTreeMap::new(), custom_directives, applied }
+}
+
+// ---------------------------------------------------------------------------------------------------------------
+
+pub fn run(ctx: &mut Ctx) {
+    ctx.rule = "sources: gen_sch dynamic schemas decorated with descriptions / deprecation reasons / string defaults drawn from quotes, triple quotes, backslashes, escape look-alikes, \
+                TAB, non-BMP and odd Unicode, built with every description and deprecation forwarded; two derive-built static schemas with a hand-written expectation table (all element \
+                kinds, custom directives, defaults of every value kind, interface implementing an interface, union, oneOf). Exports: all 768 option combinations (8 toggles x indent \
+                widths 0/1/2/4/9) for the static schemas and 10 generated ones, default + 3 drawn option sets for every other generated schema. Oracle: parse_schema and the reference \
+                parser accept the SDL and its read-back equals the source. Non-trivial = some text needs escaping, or an interface implements an interface, or the options are not the \
+                default; distinct by rendered (source, options)"
+        .into();
+    ctx.assume("descriptions carry only text a block string can carry: no CR, no leading/trailing blank line, no common indentation (the first line starts with a non-blank character); raw control characters other than TAB/LF are not generated in descriptions, other than TAB/LF/CR/BS/FF not in deprecation reasons (SourceCharacter differs between specification editions); default values use any character");
+    ctx.assume("the order of fields / arguments / enum values / union members / interfaces is only checked when a sorted_* option asks for an order; the order of type definitions is not part of the property");
+    ctx.assume("definitions of the specification's built-in directives may be left out of the SDL; a printed one must have the specified arguments, types, defaults and locations; descriptions of directives and of directive arguments are not compared");
+    ctx.assume("federation option: compared against the documented subgraph form — `extend schema @link(..)` instead of a schema definition, root types by their default names, the subscription root left out (enable_subscription_in_federation is not used); everything else must round-trip as without the option. No schema here uses federation attributes, so @key/@shareable/.. and _Service/_Any/_Entity never occur");
+    ctx.assume("only optional arguments and input fields are deprecated; oneOf fields carry no defaults or deprecations; @specifiedBy is required only under include_specified_by");
+    let mut open = [false; 5];
+    for (i, id) in FINDINGS.iter().enumerate() {
+        open[i] = ctx.open(id);
+        if open[i] {
+            ctx.excluded(id);
+        }
+    }
+    let main_allow = Allow { quote_in_reason: !open[0], triple_quote_in_description: !open[1], backslash_in_one_line_description: !open[2], interface_inheritance: !open[3] };
+    let all = all_options();
+
+    // ---- static family, every option combination
+    let t0 = std::time::Instant::now();
+    let (e_nst, e_prb) = (expect_nst(), expect_prb());
+    let mut n_enum = 0u64;
+    for o in &all {
+        let c = one_export(&nst::sdl(o.build()), &e_nst, o, false, &open, "static schema nst").class("static:nst");
+        ctx.check_case("static-options", c, json!({"schema": "nst", "options": o.show()}));
+        let c = one_export(&prb::sdl(o.build()), &e_prb, o, false, &open, "static schema prb (constructs of the findings)").class("static:prb");
+        ctx.check_case("static-options", c, json!({"schema": "prb", "options": o.show()}));
+        n_enum += 2;
+    }
+    ctx.enumerated("static-options", n_enum, true, t0);
+
+    // ---- generated dynamic schemas, every option combination on a few
+    let t1 = std::time::Instant::now();
+    let mut n_dyn = 0u64;
+    for (k, choices) in ctx.random_vectors("dynamic-options", ctx.tier.pick(10, 60), 500).iter().enumerate() {
+        let mut src = vcore::src::VecSrc::new(choices);
+        match gen_dynamic(&mut src, &main_allow) {
+            Ok((e, schema)) => {
+                let what = format!("generated schema #{}: {}", k, show_expect(&e));
+                for o in &all {
+                    let c = one_export(&schema.sdl_with_options(o.build()), &e, o, true, &open, &what).class("dynamic:all-options");
+                    ctx.check_case("dynamic-options", c, json!({"choices": choices, "options": o.show()}));
+                    n_dyn += 1;
+                }
+            }
+            Err(c) => {
+                ctx.check_case("dynamic-options", c, json!({"choices": choices}));
+            }
+        }
+    }
+    ctx.enumerated("dynamic-options", n_dyn, true, t1);
+    ctx.exhaustive = Some(true);
+
+    // ---- generated dynamic schemas, drawn options
+    let n = ctx.tier.pick(4_000, 150_000);
+    ctx.stream("dynamic", n, 900, |s| dynamic_case(s, &main_allow, &open, 3));
+    if open[..4].iter().any(|x| *x) {
+        let probe_allow = Allow { quote_in_reason: true, triple_quote_in_description: true, backslash_in_one_line_description: true, interface_inheritance: true };
+        ctx.stream("probe-findings", n / 4, 900, |s| dynamic_case(s, &probe_allow, &open, 3));
+    }
+    ctx.floor("text-needing-escape", 500);
+    ctx.floor("non-default-options", 500);
+    ctx.floor("option:federation", 200);
+    ctx.floor("option:prefer_single_line_descriptions", 200);
 }
